@@ -337,10 +337,12 @@ class Inv:
         if L < 1e-6:
             self.st["unjudged:tolerant-degenerate-edge"] += 1
             return
-        s = 1 if side else -1
-        p = ((x0 + x1) / 2 + s * (y1 - y0) / L * self.tol / 2, (y0 + y1) / 2 - s * (x1 - x0) / L * self.tol / 2)
-        d = poly.distance(sg.Point(p))
-        if not (0.2 * self.tol <= d <= 0.8 * self.tol):
+        for s in ((1, -1) if side else (-1, 1)):  # one of the two normals points out of the polygon
+            p = ((x0 + x1) / 2 + s * (y1 - y0) / L * self.tol / 2, (y0 + y1) / 2 - s * (x1 - x0) / L * self.tol / 2)
+            d = poly.distance(sg.Point(p))
+            if 0.2 * self.tol <= d <= 0.8 * self.tol:
+                break
+        else:
             self.st["unjudged:tolerant-point-not-just-outside"] += 1
             return
         r = getattr(self.net, own)(p)
